@@ -5,6 +5,7 @@ import (
 	"fmt"
 	"runtime/debug"
 	"sync"
+	"verif/harness/internal/corpus"
 
 	"github.com/gopacket/gopacket"
 
@@ -29,6 +30,7 @@ func c02Sig(b []byte, t gopacket.LayerType, o gopacket.DecodeOptions) (s sig.Pac
 
 // c02Determinism: history independence, placement independence, input never written.
 func c02Determinism(c *vlib.Ctx) {
+	corpus.RecordFirst = true
 	cp := getCorpus()
 	debug.SetPanicOnFault(true)
 	reg, err := ropage.New(70000)
@@ -88,7 +90,11 @@ func c02Determinism(c *vlib.Ctx) {
 				big := r.Bytes(len(in) + 64)
 				off := r.Range(1, 32)
 				copy(big[off:], in)
+				before := append([]byte{}, big...)
 				s2, pi := c02Sig(big[off:off+len(in)], t, o)
+				if !bytes.Equal(big, before) {
+					c.Violation("input-buffer-modified:around-the-input:"+t.String(), "the buffer that holds the input (the input itself or the caller's bytes in front of / behind it) changed during decoding", det())
+				}
 				if pi == nil {
 					if ok, what := s0.Equal(s2); !ok {
 						c.Violation("result-depends-on-bytes-beyond-the-input:"+sig.DiffLayerFirst(s0, s2, t.String()), "the same bytes embedded in a larger buffer (spare capacity with other content) decode differently: "+what, det())
@@ -114,7 +120,20 @@ func c02Determinism(c *vlib.Ctx) {
 						c.Violation("input-buffer-modified:"+t.String(), "the caller's buffer changed during decoding", det())
 					}
 				}
-				c.Evals(3)
+				// (2b) the same with read-only spare capacity behind the input: writing there (an append to the input or to a
+				// sub-slice that reaches its end) is a write to the caller's buffer too. Only faults are judged: what lies
+				// behind the input may legitimately be read by nobody, so the result is not compared here.
+				roomy := reg.PlaceWithRoom(in, 24)
+				if pi := vlib.Guard(func() {
+					p := gopacket.NewPacket(roomy, t, o)
+					c01Accessors(p, r.Fork(), false)
+					dispose(p)
+				}); pi != nil && pi.Addr != 0 {
+					if kind := reg.Classify(pi.Addr); kind == "write-to-input" {
+						c.Violation("write-behind-the-input@"+pi.Func, fmt.Sprintf("write into the caller's buffer (input or its spare capacity) while decoding/using a packet (%s, at %s:%d)", optString(o), pi.File, pi.Line), det())
+					}
+				}
+				c.Evals(4)
 				if len(s0.Types) >= 3 {
 					c.NonTrivial(vlib.Mix(uint64(t), vlib.HashBytes(in)))
 				}
@@ -127,6 +146,33 @@ func c02Determinism(c *vlib.Ctx) {
 		}
 	}
 	c.Count("read_only_placements", idx)
+	// (3) the earliest decodes of this process against the latest: what the corpus builder's first decode of an input
+	// returned (before the hand-made, searched and mutated inputs of every type went through the library) must be what
+	// the same bytes decode to now
+	idx++
+	if c.Begin(idx) {
+		n, unstable := 0, 0
+		for _, f := range corpus.First {
+			o := gopacket.DecodeOptions{NoCopy: true, DecodeStreamsAsDatagrams: f.DSAD}
+			late, pi := c02Sig(f.B, f.T, o)
+			again, pi2 := c02Sig(f.B, f.T, o)
+			if pi != nil || pi2 != nil {
+				continue
+			}
+			if ok, _ := late.Equal(again); !ok {
+				unstable++
+				continue
+			}
+			n++
+			if ok, what := f.Sig.Equal(late); !ok {
+				c.Violation("result-depends-on-history:first-decode-in-process:"+sig.DiffLayerFirst(f.Sig, late, f.T.String()), "the first decode of these bytes in this process and a decode after everything else was decoded give different packets: "+what,
+					map[string]any{"first_layer": f.T.String(), "input_hex": hx(f.B), "options": optString(o)})
+			}
+			c.Evals(1)
+		}
+		c.Count("first_decodes_of_the_process_repeated_at_the_end", n)
+		c.End()
+	}
 }
 
 // c02Concurrent: concurrent decoders and concurrent readers of one eager packet (race build).
